@@ -3,6 +3,9 @@ import PqModel.MergeAbstract
 import PqModel.MergeRanges
 import PqModel.MergeRefinePlan
 import PqModel.MergeZero
+import PqModel.MergeRetry
+import PqModel.MergeNested
+import PqModel.MergeRefineOrder
 
 /-! # C09 — Merging sorted row groups yields a sorted, complete, per-input-stable sequence
 
@@ -384,6 +387,33 @@ example : PagesOk false
     · have : r = 3 ∨ r = 4 := by simp [pageEnd] at h1 h2; omega
       rcases this with rfl | rfl <;> decide
 
+/-- the per-slice step of the planner's order argument, on the merge's own comparator (all sorting
+    columns, any directions and null orders): a lone slice `[off, e)` cut with `cutAbove(leftK) ≤ off`
+    and `e ≤ cutBelow(rightK)` lies strictly after every row that is at most `leftK` (the row groups
+    that ended) and strictly before every row that is at least `rightK` (those that start later).
+    -- OPEN: `cuts_form_good_plan` still lacks the sweep invariant that supplies `ha` / `hb` at every slice. -/
+theorem lone_slice_lies_between_its_keys (s : ColSpec) (ss : List ColSpec) {t : Target} {vals : List Int}
+    (h : PagesOk s.desc t vals) (rows : List KeyRow) (hf : FirstCol s.desc rows vals)
+    (leftK rightK : KeyRow) (kl kr : Int) (hl : leftK.getD 0 none = some kl) (hr : rightK.getD 0 none = some kr)
+    (off e : Nat) (ho : cutAbove s.desc t leftK ≤ off) (he : e ≤ cutBelow s.desc t rightK) (hen : e ≤ t.numRows)
+    (a b : KeyRow) (ha : cmpRows (s :: ss) a leftK ≤ 0) (hb : cmpRows (s :: ss) rightK b ≤ 0) :
+    ∀ r, off ≤ r → r < e →
+      cmpRows (s :: ss) a (rows.getD r []) < 0 ∧ cmpRows (s :: ss) (rows.getD r []) b < 0 :=
+  lone_slice_between s ss h rows hf leftK rightK kl kr hl hr off e ho he hen a b ha hb
+
+/-- the hypotheses are satisfiable: rows 1,1,2 | 2,5 (two key columns), `leftK = (1, 9)`, `rightK = (5, 0)`:
+    the slice is the second page without its last row -/
+example : FirstCol false [[some 1, some 0], [some 1, some 7], [some 2, some 3], [some 2, some 4], [some 5, some 0]] [1, 1, 2, 2, 5] ∧
+    cutAbove false { idx := 0, numRows := 5, cols := [[⟨false, false, some 1, some 2⟩, ⟨false, false, some 2, some 5⟩]], firstRows := [0, 3] }
+      [some 1, some 9] = 3 ∧
+    cutBelow false { idx := 0, numRows := 5, cols := [[⟨false, false, some 1, some 2⟩, ⟨false, false, some 2, some 5⟩]], firstRows := [0, 3] }
+      [some 5, some 0] = 3 ∧
+    cmpRows [⟨false, false⟩, ⟨false, false⟩] [some 1, some 7] [some 1, some 9] ≤ 0 := by
+  refine ⟨⟨rfl, ?_⟩, by decide, by decide, by decide⟩
+  intro r hr
+  have : r = 0 ∨ r = 1 ∨ r = 2 ∨ r = 3 ∨ r = 4 := by simp at hr; omega
+  rcases this with rfl | rfl | rfl | rfl | rfl <;> simp [ord]
+
 /-- whatever the page statistics and keys, the plan of `refineSegment` cuts every row group into
     consecutive parts from its first to its last row, at most one part per region -/
 theorem refineSegment_partitions_row_groups (strict : Bool) (specs : List ColSpec) (ts : List Refine.RG) (plan : List (List Part))
@@ -441,17 +471,77 @@ theorem cut_lookups_ignore_nulls_in_mixed_pages :
 
 end planner
 
-/-! ## sources that answer `(0, nil)` (observation, outside the stated property)
+/-! ## sources that answer `(0, nil)`
 
-`bufferedRowReader.read` accepts `(0, nil)` as a refill; `head()` then returns the first row of the
-previous fill. On the as-is mirror (`MergeZero.lean`, refill entry `0` = a `(0, nil)` answer): inputs
-`1,3,5,7` (second read answers `(0, nil)`) and `2,4,6,8` give `1 2 3 1 4 5 6 7 8`: row `(0,0)` twice,
-out of order. The main theorems assume every successful source read delivers a row. -/
+A `RowReader` may answer `(0, nil)` (row.go: "less rows than requested and no error"): one of the
+source chunkings the property quantifies over. `bufferedRowReader.read` reads again (at most 100
+times). `Buf.readE` (MergeRetry.lean) mirrors the loop; in a refill stream the entry `0` is a
+`(0, nil)` answer. -/
 
+/-- `(0, nil)` answers are invisible to the merge: as long as a source does not stall (at most 100
+    such answers in a row), a `read` over a stream with zero entries ends as `Buf.read` — the function
+    all session theorems above are about — over the stream without them: same rows buffered, same
+    remaining source, `io.EOF` in the same cases, never `io.ErrNoProgress`. (The readers reach their
+    sources through `read` only; the composition to whole sessions is tied by L2,
+    `merge-zero-read-skipped-mirror`.) -/
+theorem zero_row_reads_are_invisible (b : Buf) (h : zeroRun b.sizes ≤ 100) :
+    match b.readE with
+    | .rows b' => b.squash.read = some b'.squash
+    | .eof => b.squash.read = none
+    | .noProgress => False := readE_squash b h
+
+/-- a source that answers `(0, nil)` 101 times in a row ends the merge with `io.ErrNoProgress` -/
+theorem stalled_source_is_an_error (b : Buf) (h : 101 ≤ zeroRun b.sizes) (hsrc : b.src ≠ []) :
+    b.readE = .noProgress := readE_stall b h hsrc
+
+example : zeroRun (Buf.fresh [⟨1, 0, 0⟩] [0, 0, 2]).sizes ≤ 100 ∧ (Buf.fresh [⟨1, 0, 0⟩] [0, 0, 2]).readE.kind = 0 := by decide
+
+/-- BEFORE the retry existed (library commit 0f6ccd1; the seeded change C09-3b removes it again), on
+    the as-is mirror `MergeZero.lean`: inputs `1,3,5,7` (second read answers `(0, nil)`) and `2,4,6,8`
+    give `1 2 3 1 4 5 6 7 8`: `head()` of the empty buffer is the first row of the previous fill. -/
 theorem zero_row_read_reemits_stale_row :
     (((M2Z.new (tagInputs [[1, 3, 5, 7], [2, 4, 6, 8]]).head! ((tagInputs [[1, 3, 5, 7], [2, 4, 6, 8]]).getD 1 [])
         [2, 0, 2, 2] [2, 2, 2]).session [10, 10, 10, 10, 10, 10, 10, 10]).flatten.map (fun r => r.key))
       = [1, 2, 3, 1, 4, 5, 6, 7, 8] := by decide
+
+/-! ## merged row groups and merged readers as inputs of a merge (nesting) -/
+
+/-- **a merge of merges is a merge of the leaves**, for any order relation, any grouping `g` of the
+    leaves into the inputs `mids` of the outer merge, hence (the statement composes) any merge tree:
+    sorted, the multiset union of the leaves, and every *leaf's* rows in their original order. -/
+theorem merge_of_merges_is_merge {α : Type} {le : α → α → Prop} {tag : α → Nat} (g : Nat → Nat)
+    (leaves mids : List (List α)) (out : List α)
+    (hinner : ∀ j (m : List α), mids[j]? = some m → IsMergeBy le tag (maskGroup g j leaves) m)
+    (hg : ∀ i, i < leaves.length → g i < mids.length)
+    (houter : IsMergeBy le (fun r => g (tag r)) mids out) :
+    IsMergeBy le tag leaves out := isMergeBy_nested g leaves mids out hinner hg houter
+
+section
+open PqModel.Refine PqModel.Compare
+
+/-- the planner's range of a merged row group (pages listed member after member, rows interleaved)
+    bounds every key that some non-null page bounds — whatever the order of the pages. This is the
+    only thing such a page index says about the rows (`CoveredBy`); `PagesOk`, the hypothesis of the
+    cut theorems, does not hold for it, and such a row group gets no cut lookups. -/
+theorem interleaved_range_is_valid (s : ColSpec) (pages : List PageStat) (lo hi : Option Int)
+    (hnn : pages.any (fun p => p.nullPage || p.hasNulls) = false)
+    (h : colRange s pages true = some (lo, hi)) (v : Int) (hv : CoveredBy pages v) :
+    ∃ a b, lo = some a ∧ hi = some b ∧ ord s.desc a ≤ ord s.desc v ∧ ord s.desc v ≤ ord s.desc b :=
+  colRange_interleaved_covers s pages lo hi hnn h v hv
+
+theorem interleaved_row_group_is_never_sliced (strict : Bool) (t : Target) (h : t.interleaved = true) :
+    hasCuts strict t = false := interleaved_no_cuts strict t h
+
+/-- FINDING (round 3, fixed in the library clone): `Merge(Merge(A[0..100], B[50..60]), C[70..80])`.
+    With the first-page / last-page rule the inner merge got the range `[0, 60]` although it holds
+    the key 70; `C` was appended after it. Harness keys `unsorted nested path=…`. -/
+theorem nested_merge_range_misses_rows_before_fix :
+    CoveredBy nestedWitnessPages 70 ∧
+    colRange { desc := false, nullsFirst := false } nestedWitnessPages false = some (some 0, some 60) ∧
+    colRange { desc := false, nullsFirst := false } nestedWitnessPages true = some (some 0, some 100) :=
+  firstLast_misses_row
+
+end
 
 /-! ## the abstract schedule theorems (MergeAbstract.lean) are instances of the above -/
 
